@@ -517,7 +517,25 @@ func (in *Instance) Verify() (*vc.Engine, error) {
 		if nested {
 			cls = nil
 		}
-		if err := e.VerifyFuncLit(st, x, results, cls); err != nil {
+		var invs []contract.Clause
+		for _, t := range in.pickGuarded(gen.Attrs["o-closure-inv"], cargs, in.Path.Decisions) {
+			name := ""
+			t = strings.TrimSpace(t)
+			if strings.HasPrefix(t, "[") {
+				if j := strings.Index(t, "]"); j > 0 {
+					name, t = t[1:j], strings.TrimSpace(t[j+1:])
+				}
+			}
+			x, err := spec.Parse(t)
+			if err != nil {
+				return vc.Val{}, true, fmt.Errorf("%s: o-closure-inv of %s: %v", gen.File, gen.Key, err)
+			}
+			invs = append(invs, contract.Clause{Text: t, Expr: x, File: gen.File, Line: gen.Line, Name: name})
+		}
+		if nested {
+			invs = nil
+		}
+		if err := e.VerifyFuncLitInv(st, x, results, cls, invs); err != nil {
 			return vc.Val{}, true, err
 		}
 		v := e.Fresh("closure", smt.V)
